@@ -365,7 +365,20 @@ func (r *Round) UpdateNotarizedBlock(b *block.Block) {
 
 /*GetNotarizedBlocks - return all the notarized blocks associated with this round */
 func (r *Round) GetNotarizedBlocks() []*block.Block {
-	return r.notarizedBlocks
+	r.mutex.RLock()
+	defer r.mutex.RUnlock()
+	return copyBlocks(r.notarizedBlocks)
+}
+
+// copyBlocks returns a copy of the slice, so that callers can walk it while
+// the round keeps adding, replacing and re-sorting blocks in place.
+func copyBlocks(blocks []*block.Block) []*block.Block {
+	if blocks == nil {
+		return nil
+	}
+	cp := make([]*block.Block, len(blocks))
+	copy(cp, blocks)
+	return cp
 }
 
 /*AddProposedBlock - this will be concurrent as notarization is recognized by verifying as well as notarization message from others */
@@ -394,7 +407,7 @@ func (r *Round) addProposedBlock(b *block.Block) {
 func (r *Round) GetProposedBlocks() []*block.Block {
 	r.mutex.RLock()
 	defer r.mutex.RUnlock()
-	return r.proposedBlocks
+	return copyBlocks(r.proposedBlocks)
 }
 
 func (r *Round) GetBestRankedProposedBlock() *block.Block {
@@ -407,7 +420,8 @@ func (r *Round) GetBestRankedProposedBlock() *block.Block {
 	if len(pbs) == 1 {
 		return pbs[0]
 	}
-	pbs = r.GetBlocksByRank(pbs)
+	// sort a copy: the read lock does not allow reordering the shared slice
+	pbs = r.GetBlocksByRank(copyBlocks(pbs))
 	return pbs[0]
 }
 
@@ -439,7 +453,9 @@ func (r *Round) GetBestRankedNotarizedBlock() *block.Block {
 	if len(rnb) == 1 {
 		return rnb[0]
 	}
-	rnb = r.GetBlocksByRank(rnb)
+	// sort a copy: the read lock does not allow reordering the shared slice
+	// (which GetHeaviestNotarizedBlock expects to stay ordered by weight)
+	rnb = r.GetBlocksByRank(copyBlocks(rnb))
 	return rnb[0]
 }
 
